@@ -12,7 +12,7 @@ Lemma rquery_sel kin walias subquery ali c withs distinct selects from joins whe
 Proof.
   unfold sel_render, sel_wns, stmt_srcs, stmt_names. cbn [rquery].
   destruct (name_from sub_count 0 from) as [fnames n1].
-  destruct (name_joins (base_tables from) n1 joins) as [jnames n2].
+  unfold sel_tk. destruct (name_joins (base_tables from) (src_names from fnames ++ map fst withs) n1 joins) as [jnames n2].
   reflexivity.
 Qed.
 Lemma rquery_upd kin walias subquery ali c tbl sets from joins wheres l :
@@ -20,7 +20,7 @@ Lemma rquery_upd kin walias subquery ali c tbl sets from joins wheres l :
 Proof.
   unfold upd_render, upd_wns, stmt_srcs, stmt_names. cbn [rquery].
   destruct (name_from sub_count 0 from) as [fnames n1].
-  destruct (name_joins (tbl :: base_tables from) n1 joins) as [jnames n2].
+  unfold upd_tk. destruct (name_joins (tbl :: base_tables from) (tref_name tbl :: src_names from fnames) n1 joins) as [jnames n2].
   reflexivity.
 Qed.
 Lemma rquery_del kin walias subquery ali c from wheres :
@@ -299,8 +299,8 @@ Theorem sel_render_toks kin walias subquery ali c withs distinct selects from jo
          (sel_toks kin walias subquery ali c withs distinct selects from joins wheres havings groupbys orderbys l o fu).
 Proof.
   unfold sel_render, sel_toks. lazy zeta.
-  set (k := defaults c kin). set (nm := stmt_names (base_tables from) from joins).
-  set (srcs := stmt_srcs (base_tables from) from joins). set (wns := sel_wns from joins wheres).
+  set (k := defaults c kin). set (nm := stmt_names (base_tables from) (sel_tk withs) from joins).
+  set (srcs := stmt_srcs (base_tables from) (sel_tk withs) from joins). set (wns := sel_wns withs from joins wheres).
   set (kk := with_c k (set_wn (kc k) wns)).
   destruct selects as [|s0 sels]; [reflexivity|]. set (selects := s0 :: sels).
   dres.
@@ -312,19 +312,19 @@ Proof.
                | [] => Ok ""%string
                | _ :: _ => gs <- mapM (fun y => match (if k_gba k then alias_ref selects y else None) with
                                                 | Some a => Ok (fq (or_ostr (aq (kc k)) (q (kc k))) a)
-                                                | None => ritem (mk_k (kc kk) (k_abs kk) true) srcs (sel_cx k wns ClGroupBy) y end) groupbys ;;
+                                                | None => ritem kk srcs (sel_cx k wns ClGroupBy) y end) groupbys ;;
                            Ok (" GROUP BY " ++ join "," gs)%string end)
               = rmap (flat (q (kc k)))
                   (match groupbys with
                    | [] => Ok []
                    | _ :: _ => gs <- mapT (fun y => match (if k_gba k then alias_ref selects y else None) with
                                                     | Some a => Ok [KText (fq (or_ostr (aq (kc k)) (q (kc k))) a)]
-                                                    | None => itoks (mk_k (kc kk) (k_abs kk) true) srcs (sel_cx k wns ClGroupBy) y end) groupbys ;;
+                                                    | None => itoks kk srcs (sel_cx k wns ClGroupBy) y end) groupbys ;;
                                Ok (KText " GROUP BY " :: jtoks "," gs) end)).
   { destruct groupbys as [|g0 gr]; [reflexivity|].
     rewrite (mapM_mapT_all _ (fun y => match (if k_gba k then alias_ref selects y else None) with
                                        | Some a => Ok [KText (fq (or_ostr (aq (kc k)) (q (kc k))) a)]
-                                       | None => itoks (mk_k (kc kk) (k_abs kk) true) srcs (sel_cx k wns ClGroupBy) y end) (flat (q (kc k)))).
+                                       | None => itoks kk srcs (sel_cx k wns ClGroupBy) y end) (flat (q (kc k)))).
     - destruct (mapT _ (g0 :: gr)); cbn [bind rmap]; [|reflexivity]. f_equal; norm; reflexivity.
     - intros y. destruct (if k_gba k then alias_ref selects y else None).
       + cbn [rmap]. rewrite flat_one. reflexivity.
@@ -352,8 +352,8 @@ Theorem upd_render_toks kin c tbl sets from joins wheres l :
   = rmap (sflat (q (kc (defaults c kin)))) (upd_toks kin c tbl sets from joins wheres l).
 Proof.
   unfold upd_render, upd_toks. lazy zeta.
-  set (k := defaults c kin). set (nm := stmt_names (tbl :: base_tables from) from joins).
-  set (srcs := stmt_srcs (tbl :: base_tables from) from joins). set (wns := upd_wns tbl from joins wheres).
+  set (k := defaults c kin). set (nm := stmt_names (tbl :: base_tables from) (upd_tk tbl) from joins).
+  set (srcs := stmt_srcs (tbl :: base_tables from) (upd_tk tbl) from joins). set (wns := upd_wns tbl from joins wheres).
   set (base := set_wn (kc k) wns). set (kk := with_c k base).
   destruct sets as [|s0 sr]; [reflexivity|]. set (sets := s0 :: sr).
   rewrite (join_loop_toks k kk srcs _ _ (upd_cx k wns ClOn) (q base) eq_refl). dres.
@@ -482,11 +482,11 @@ Ltac srule := rewrite ?sokl_salias, ?sokl_sparen, ?sokl_app, ?sokl_tx, ?sokl_cte
 
 Theorem sel_toks_rule kin walias subquery ali c withs distinct selects from joins wheres havings groupbys orderbys l o fu ts :
   sel_toks kin walias subquery ali c withs distinct selects from joins wheres havings groupbys orderbys l o fu = Ok ts ->
-  sokl (sel_wns from joins wheres) ts = true.
+  sokl (sel_wns withs from joins wheres) ts = true.
 Proof.
   unfold sel_toks. lazy zeta.
-  set (k := defaults c kin). set (nm := stmt_names (base_tables from) from joins).
-  set (srcs := stmt_srcs (base_tables from) from joins). set (wns := sel_wns from joins wheres).
+  set (k := defaults c kin). set (nm := stmt_names (base_tables from) (sel_tk withs) from joins).
+  set (srcs := stmt_srcs (base_tables from) (sel_tk withs) from joins). set (wns := sel_wns withs from joins wheres).
   set (kk := with_c k (set_wn (kc k) wns)).
   destruct selects as [|s0 sels]; [intros H; inversion H; reflexivity|]. set (selects := s0 :: sels).
   intros H. inv_bind H. inversion H; subst; clear H. repeat srule.
@@ -515,8 +515,8 @@ Theorem upd_toks_rule kin c tbl sets from joins wheres l ts :
   upd_toks kin c tbl sets from joins wheres l = Ok ts -> sokl (upd_wns tbl from joins wheres) ts = true.
 Proof.
   unfold upd_toks. lazy zeta.
-  set (k := defaults c kin). set (nm := stmt_names (tbl :: base_tables from) from joins).
-  set (srcs := stmt_srcs (tbl :: base_tables from) from joins). set (wns := upd_wns tbl from joins wheres).
+  set (k := defaults c kin). set (nm := stmt_names (tbl :: base_tables from) (upd_tk tbl) from joins).
+  set (srcs := stmt_srcs (tbl :: base_tables from) (upd_tk tbl) from joins). set (wns := upd_wns tbl from joins wheres).
   set (base := set_wn (kc k) wns). set (kk := with_c k base).
   destruct sets as [|s0 sr]; [intros H; inversion H; reflexivity|]. set (sets := s0 :: sr).
   intros H. inv_bind H. inversion H; subst; clear H. repeat srule.
@@ -661,12 +661,12 @@ Theorem sel_toks_complete kin walias subquery ali c withs distinct selects from 
   sel_toks kin walias subquery ali c withs distinct selects from joins wheres havings groupbys orderbys l o fu = Ok ts ->
   stok_tables ts = match selects with
                    | [] => []
-                   | _ => sel_expected (k_gba (defaults c kin)) (stmt_srcs (base_tables from) from joins)
+                   | _ => sel_expected (k_gba (defaults c kin)) (stmt_srcs (base_tables from) (sel_tk withs) from joins)
                                        selects joins wheres havings groupbys orderbys end.
 Proof.
   unfold sel_toks. lazy zeta.
-  set (k := defaults c kin). set (nm := stmt_names (base_tables from) from joins).
-  set (srcs := stmt_srcs (base_tables from) from joins). set (wns := sel_wns from joins wheres).
+  set (k := defaults c kin). set (nm := stmt_names (base_tables from) (sel_tk withs) from joins).
+  set (srcs := stmt_srcs (base_tables from) (sel_tk withs) from joins). set (wns := sel_wns withs from joins wheres).
   set (kk := with_c k (set_wn (kc k) wns)).
   destruct selects as [|s0 sels]; [intros H; inversion H; reflexivity|]. set (selects := s0 :: sels).
   intros H. inv_bind H. inversion H; subst; clear H. repeat stabs. unfold sel_expected.
@@ -690,11 +690,11 @@ Theorem upd_toks_complete kin c tbl sets from joins wheres l ts :
   upd_toks kin c tbl sets from joins wheres l = Ok ts ->
   stok_tables ts = match sets with
                    | [] => []
-                   | _ => upd_expected (stmt_srcs (tbl :: base_tables from) from joins) sets joins wheres end.
+                   | _ => upd_expected (stmt_srcs (tbl :: base_tables from) (upd_tk tbl) from joins) sets joins wheres end.
 Proof.
   unfold upd_toks. lazy zeta.
-  set (k := defaults c kin). set (nm := stmt_names (tbl :: base_tables from) from joins).
-  set (srcs := stmt_srcs (tbl :: base_tables from) from joins). set (wns := upd_wns tbl from joins wheres).
+  set (k := defaults c kin). set (nm := stmt_names (tbl :: base_tables from) (upd_tk tbl) from joins).
+  set (srcs := stmt_srcs (tbl :: base_tables from) (upd_tk tbl) from joins). set (wns := upd_wns tbl from joins wheres).
   set (base := set_wn (kc k) wns). set (kk := with_c k base).
   destruct sets as [|s0 sr]; [intros H; inversion H; reflexivity|]. set (sets := s0 :: sr).
   intros H. inv_bind H. inversion H; subst; clear H. repeat stabs. unfold upd_expected.
